@@ -96,7 +96,7 @@ def add_contract(same_grid):
         out += grid_clauses(g["A"], kw)
         V = kw.get("values")
         if not isinstance(V, Arr) or V.ndim != 2:
-            return out + [("values_is_matrix", False, "P")]
+            return out + [("values_is_matrix", False, "S")]
         kmax = ite(lift(g["ka"]) >= g["kb"], g["ka"], g["kb"])
         out.append(("depth_is_max_of_operand_depths", b_and(lift(V.shape[0]) == kmax, lift(V.shape[1]) == g["ns"]), "P"))
         i = e.fresh_int("qi", lo=0, hi=kmax)
@@ -137,7 +137,7 @@ def unary_contract(which):
         out = grid_clauses(g["A"], kw)
         V = kw.get("values")
         if not isinstance(V, Arr) or V.ndim != 2:
-            return out + [("values_is_matrix", False, "P")]
+            return out + [("values_is_matrix", False, "S")]
         out.append(("same_shape", b_and(lift(V.shape[0]) == g["ka"], lift(V.shape[1]) == g["ns"]), "P"))
         i = e.fresh_int("qi", lo=0, hi=g["ka"])
         j = e.fresh_int("qj", lo=0, hi=g["ns"])
@@ -161,7 +161,7 @@ def sub_contract():
             return [("returns_a_landscape", False, "S")]
         V = kw.get("values")
         if not isinstance(V, Arr) or V.ndim != 2:
-            return [("values_is_matrix", False, "P")]
+            return [("values_is_matrix", False, "S")]
         kmax = ite(lift(g["ka"]) >= g["kb"], g["ka"], g["kb"])
         i = e.fresh_int("qi", lo=0, hi=kmax)
         j = e.fresh_int("qj", lo=0, hi=g["ns"])
@@ -235,14 +235,14 @@ def exact_map_contract(which):
         out = [("keeps_degree", kw.get("hom_deg") is g["o"].fields["hom_deg"], "P"),
                ("operand_untouched", g["o"].fields["critical_pairs"] is g["cps"], "P")]
         if not isinstance(cp, SymSeq):
-            return out + [("critical_pairs_is_list", False, "P")]
+            return out + [("critical_pairs_is_list", False, "S")]
         out.append(("same_number_of_depths", lift(cp.n) == g["nd"], "P"))
         d = e.fresh_int("qd", lo=0, hi=g["nd"])
         dl = Num(g["L"](to_z3(d)))
         sidx = e.fresh_int("qs", lo=0, hi=dl)
         row = cur_under(b_and(lift(d) >= 0, lift(d) < g["nd"]), lambda: cp.get(d))
         if not isinstance(row, SymSeq):
-            return out + [("depth_is_list", False, "P")]
+            return out + [("depth_is_list", False, "S")]
         out.append(("same_number_of_critical_points", lift(row.n) == dl, "P"))
         pair = row.get(sidx)
         x, y = Num(g["X"](to_z3(d), to_z3(sidx))), Num(g["Y"](to_z3(d), to_z3(sidx)))
